@@ -395,7 +395,7 @@ func init() {
 }
 
 var hostileAlphabet = []string{"'", "\"", "`", "\\", "-", "/", "*", ";", "(", ")", ",", "\x00", "\t", "\n", " ", "é", "\xff", "{", "}", "a", "Z", "0", "9", "_", "$", "=", ".", "%", "|", "\r"}
-var hostileConstants = []string{"\\", "\\'", "'--", "*/", "/*", "'; DROP", "x' , (select 1) as y, '", "--", "\\\\", "''", "\"\"", "``", "\\\"", "a\\", "' OR '1'='1", "{p: Int32}", "\\n", "\\x41", "\\0", ")", "\";"}
+var hostileConstants = []string{"\\", "\\'", "'--", "*/", "/*", "'; DROP", "x' , (select 1) as y, '", "--", "\\\\", "''", "\"\"", "``", "\\\"", "a\\", "' OR '1'='1", "{p: Int32}", "\\n", "\\x41", "\\0", ")", "\";", "\\u0041", "\\u0027 OR 1=1", "http://h/p;q"}
 var hostileNumbers = []string{"0", "7", "007", "0x1F", "0X0a", ".5", "1.", "1e3", "1.E+2", "1.50", "0.0", "1234567890123456789012345", "1e400", "0e0", "00", "0xffffffffffffffff"}
 var hostileInts = []string{"0", "7", "007", "0x1F", "0X0a", "00", "18446744073709551615", "1234567890123456789012345"}
 var plainNamePool = []string{"zz", "Col_1", "_x", "a1b2", "T9", "where_", "selectx", "x"}
